@@ -45,7 +45,10 @@ class C13:
                       or l.iter == ev or (l.iter[0] == "call" and l.iter[1] in (("builtin", "enumerate"), ("builtin", "range"))
                                           and any(x == ev for x in walk(l.iter)))]
         wrong = [l for l in pair_loops if l.iter != comb]
-        if not pair_loops or wrong:
+        if not pair_loops:
+            ctx.undec("R13.1", site, "no loop over the pairs of sound events found in the matrix construction")
+            return
+        if wrong:
             l = (wrong or [None])[0]
             ctx.bad("R13.1", self.file, "_compute_similarity_matrix", f"for ... in {show(l.iter)[:60] if l else '-'}",
                     "the pair loop must run over combinations(enumerate(sound_events), 2): all unordered pairs of distinct events, "
@@ -137,6 +140,8 @@ class C13:
                 items = []
                 base = None
                 for blk in t[2][0][1]:
+                    if blk[0] == "sub" and blk[2][0] == "const" and blk[2][1] in (0, 1) and blk[1][0] == "attr" and blk[1][2] == "T":
+                        blk = ("sub", blk[1][1], ("tuple", (("slice", NONE, NONE, NONE), blk[2])))  # E.T[k] is E[:, k]
                     if not (blk[0] == "sub" and blk[2][0] == "tuple" and len(blk[2][1]) == 2 and blk[2][1][0] == ("slice", NONE, NONE, NONE)
                             and blk[2][1][1][0] == "const" and blk[2][1][1][1] in (0, 1)):
                         return None
@@ -167,6 +172,59 @@ class C13:
             return None
 
         coo = [c for c in s.calls if c.term[1][0] == "ext" and c.term[1][1].split(".")[-1] in ("coo_array", "coo_matrix", "csr_array", "csr_matrix")]
+        n_ = ("call", ("builtin", "len"), (ev,), ())
+        empties = [c for c in coo if c.term[2] and c.term[2][0] == ("tuple", (n_, n_))]
+        if len(coo) == 2 and len(empties) == 1:
+            # `if not pairs: return <empty (n, n) matrix>`: no pair, no entry -- the same matrix the general construction gives
+            e0 = empties[0]
+            cj = [c for c in conjuncts(e0.live) if c[0] != "inloop"]
+            pl = perpair(cj[0][1]) if len(cj) == 1 and cj[0][0] == "not" else None
+            if isinstance(pl, list) and any(r.term == e0.term for r in s.returns):
+                coo = [c for c in coo if c is not e0]
+        dense = None
+        if len(coo) == 1 and coo[0].term[2] and coo[0].term[2][0][0] == "call" and coo[0].term[2][0][1] == ("ext", "numpy.zeros"):
+            dense = coo[0].term[2][0]
+        if dense is not None:
+            # a dense (n, n) matrix of zeros with M[i, j] = M[j, i] = <true> stored per similar pair
+            shp = callkw(dense).get("shape", dense[2][0] if dense[2] else None)
+            stores = [e_ for e_ in s.of("store") if e_.term[1][0] == "sub" and e_.term[1][1] == dense]
+            cells = []
+            okd = shp == ("tuple", (n_, n_)) and bool(stores)
+            for e_ in stores:
+                idx = e_.term[1][2]
+                lp = s.loops.get(e_.loops[-1]) if e_.loops else None
+                if lp is not None and lp.iter == comb and idx[0] == "tuple" and len(idx[1]) == 2 and len(e_.loops) == 1 \
+                        and e_.term[2] in (("const", True), ("const", 1)):
+                    # the pair loop itself (a comprehension of the similar pairs consumed on the spot is the same loop)
+                    if [canon_pair(c, lp.id) for c in conjuncts(e_.live) if c[0] != "inloop"] != [COND]:
+                        ctx.bad("R13.1", self.file, "_compute_similarity_matrix", f"{show(e_.term)[:50]}",
+                                "an adjacency entry is recorded under a condition other than `comparison_fn(a, b)` being true", e_.lineno)
+                        return
+                    cells.append((canon_pair(idx[1][0], lp.id), canon_pair(idx[1][1], lp.id)))
+                    items = None
+                    continue
+                items = perpair(lp.iter) if lp is not None else None
+                if idx[0] != "tuple" or len(idx[1]) != 2 or not isinstance(items, list) or len(items) != 1 or items[0][0] != "tuple" or len(e_.loops) != 1 \
+                        or e_.term[2] not in (("const", True), ("const", 1)) or any(c[0] != "inloop" for c in conjuncts(e_.live)):
+                    okd = False
+                    break
+                el = ("elem", lp.id)
+                mp = {("sub", el, ("const", 0)): items[0][1][0], ("sub", el, ("const", 1)): items[0][1][1]}
+                cells.append((subst(idx[1][0], mp), subst(idx[1][1], mp)))
+            if stores and isinstance(items, tuple) and items and items[0] == "badcond":
+                ctx.bad("R13.1", self.file, "_compute_similarity_matrix", "comprehension filter",
+                        "an adjacency entry is recorded under a condition other than `comparison_fn(a, b)` being true", s.node.lineno)
+                return
+            if okd and set(cells) == {(I1, I2), (I2, I1)} and len(cells) == 2:
+                ctx.ok("R13.1", f"{self.file}:{coo[0].lineno} _compute_similarity_matrix", "both (i, j) and (j, i) recorded for every similar pair")
+                ctx.ok("R13.1", f"{self.file}:{coo[0].lineno} _compute_similarity_matrix", "shape = (len(events), len(events))")
+            elif okd:
+                ctx.bad("R13.1", self.file, "_compute_similarity_matrix", f"cells {[(show(a)[:10], show(b)[:10]) for a, b in cells]}",
+                        "the adjacency is not filled symmetrically from the pair's own indices ((i, j) and (j, i)): a one-directional "
+                        "or misaligned entry makes the grouping depend on the input order / miss links", coo[0].lineno)
+            else:
+                ctx.undec("R13.1", site, "dense adjacency matrix filled in a form the rule does not read")
+            return
         if len(coo) != 1 or not coo[0].term[2]:
             ctx.undec("R13.1", site, "sparse matrix construction not found")
             return
@@ -202,6 +260,8 @@ class C13:
                     "the adjacency is not filled symmetrically from the pair's own indices ((i, j) and (j, i), one value each): a one-directional "
                     "or misaligned entry makes the grouping depend on the input order / miss links", coo[0].lineno)
         shape = callkw(coo[0].term).get("shape")
+        if shape is None and len(coo[0].term[2]) > 1:
+            shape = coo[0].term[2][1]
         n = ("call", ("builtin", "len"), (ev,), ())
         if shape == ("tuple", (n, n)):
             ctx.ok("R13.1", f"{self.file}:{coo[0].lineno} _compute_similarity_matrix", "shape = (len(events), len(events))")
@@ -260,13 +320,31 @@ class C13:
                         break
                 return ("call", it[1], (it[2][0], b), ())
             return it
-        if len(loops) != 1 or unwrap_labels(loops[0].iter) != z or loops[0].conds:
-            ctx.bad("R13.3", self.file, "group_sound_events", f"for ... in {show(loops[0].iter)[:60] if loops else '-'}",
+        z2 = ("call", ("builtin", "zip"), (labels, ev), ())
+
+        def unwrap2(it):
+            if it[0] == "call" and it[1] == ("builtin", "zip") and len(it[2]) == 2 and not it[3]:
+                sw = unwrap_labels(("call", it[1], (it[2][1], it[2][0]), ()))
+                return ("call", it[1], (sw[2][1], sw[2][0]), ())
+            return it
+        swapped = len(loops) == 1 and unwrap2(loops[0].iter) == z2 and not loops[0].conds
+        if len(loops) == 1 and loops[0].conds and unwrap_labels(loops[0].iter) in (z,) :
+            ctx.bad("R13.3", self.file, "group_sound_events", f"for ... in {show(loops[0].iter)[:60]} if {show(loops[0].conds[0])[:40]}",
                     "events must be distributed by iterating zip(sound_events, labels) in input order, unfiltered", s.node.lineno)
+            return
+        if len(loops) == 1 and loops[0].iter[0] == "call" and loops[0].iter[1] == ("ext", "itertools.groupby") and self.groupby_form(s, loops[0], ev, labels, unwrap_labels, site):
+            return
+        if not swapped and (len(loops) != 1 or unwrap_labels(loops[0].iter) != z or loops[0].conds):
+            other_form = len(loops) == 1 and loops[0].iter[0] == "call" and loops[0].iter[1] not in (("builtin", "zip"), ("ext", "itertools.groupby"), ("builtin", "enumerate"))
+            if other_form:
+                ctx.undec("R13.3", site, f"the events are not distributed by one loop over zip(sound_events, labels): {show(loops[0].iter)[:70]}")
+            else:
+                ctx.bad("R13.3", self.file, "group_sound_events", f"for ... in {show(loops[0].iter)[:60] if loops else '-'}",
+                        "events must be distributed by iterating zip(sound_events, labels) in input order, unfiltered", s.node.lineno)
             return
         L = loops[0]
         e = ("elem", L.id)
-        se, lab = ("sub", e, ("const", 0)), ("sub", e, ("const", 1))
+        se, lab = (("sub", e, ("const", 1)), ("sub", e, ("const", 0))) if swapped else (("sub", e, ("const", 0)), ("sub", e, ("const", 1)))
         # the label read as a plain int (int(label) / label.item()) names the same component: equal labels stay equal, distinct stay distinct
         plain = {("call", ("builtin", "int"), (lab,), ()): lab, ("call", ("attr", lab, "item"), (), ()): lab}
         apps = [c for c in s.calls if c.term[1][0] == "attr" and c.term[1][2] == "append" and L.id in c.loops]
@@ -275,6 +353,13 @@ class C13:
             apps = [dataclasses.replace(c, term=subst(c.term, plain)) for c in apps]
         dd = None
         okapp = False
+        nonempty_ = (("cmp", "ne", ("call", ("builtin", "len"), (ev,), ()), ("const", 0)), ("cmp", "lt", ("const", 0), ("call", ("builtin", "len"), (ev,), ())), ev,
+                     ("cmp", "ne", ("const", 0), ("call", ("builtin", "len"), (ev,), ())))
+        if any(c in nonempty_ for a_ in apps for c in conjuncts(a_.live)):
+            # behind `if len(sound_events) == 0: return []`: for a non-empty input the append is unconditional
+            import dataclasses as _dc
+            from sa.sym import AND as _AND3
+            apps = [_dc.replace(a_, live=_AND3(*[c for c in conjuncts(a_.live) if c not in nonempty_])) for a_ in apps]
         if len(apps) == 1 and apps[0].term[2] == (se,) and all(c[0] == "inloop" for c in conjuncts(apps[0].live)):
             recv = apps[0].term[1][1]
             if recv[0] == "attr" and recv[2] == "sound_events" and recv[1][0] == "sub" and recv[1][2] == lab:
@@ -326,6 +411,14 @@ class C13:
                     "append breaks the partition)", apps[0].lineno if apps else s.node.lineno)
             return
         rets = s.returns
+        # `if len(sound_events) == 0: return []` in front: no events, no groups -- what the general path returns for them too
+        from sa.idioms import guarded_empty as _ge
+        empt = [r for r in rets if r.term in (("list", ()),) and len(rets) == 2]
+        if empt:
+            cj_ = [c for c in conjuncts(empt[0].live) if c[0] != "inloop"]
+            if len(cj_) == 1 and cj_[0] in (("cmp", "eq", ("call", ("builtin", "len"), (ev,), ()), ("const", 0)), ("not", ev),
+                                            ("cmp", "eq", ("const", 0), ("call", ("builtin", "len"), (ev,), ()))):
+                rets = [r for r in rets if r is not empt[0]]
         if two_stage:
             SEQ = ("global", "soundevent.data.sequences:Sequence", "class")
             vals = ("call", ("attr", dd, "values"), (), ())
@@ -341,7 +434,7 @@ class C13:
                     fills = [c for c in s.calls if lid2 in c.loops and c.term[1][0] == "attr" and c.term[1][2] in ("extend", "append")
                              and c.term[1][1] == ("attr", elt, "sound_events")]
                     filled = (not elt[2] and not elt[3] and len(fills) == 1 and fills[0].term[1][2] == "extend" and fills[0].term[2] == (el2,)
-                              and all(c[0] == "inloop" for c in conjuncts(fills[0].live)))
+                              and all(c[0] == "inloop" or c in nonempty_ for c in conjuncts(fills[0].live)))
                     good = (direct and not fills) or filled
             if good:
                 ctx.ok("R13.3", site, "returns one Sequence per label list (all its events, in order), in order of first appearance")
@@ -356,6 +449,69 @@ class C13:
         else:
             ctx.bad("R13.3", self.file, "group_sound_events", f"return {show(rets[0].term)[:60] if rets else '-'}",
                     "the result must be list(sequences.values()) of a fresh defaultdict(data.Sequence) filled by the loop", s.node.lineno)
+
+
+def _groupby_form(self, s, L, ev, labels, unwrap_labels, site) -> bool:
+    """`for _, members in groupby(sorted(zip(labels, events), key=<label>), key=<label>)`: one Sequence per run of equal labels holding
+    the run's events.  A stable sort by label keeps the input order inside a group and puts the groups in label order (scipy numbers
+    the components by their first member); WITHOUT the sort a component whose members are not adjacent in the input is split."""
+    ctx = self.ctx
+    it = L.iter
+    kw = callkw(it)
+    X = it[2][0] if it[2] else None
+    K = kw.get("key", it[2][1] if len(it[2]) > 1 else None)
+
+    def sel(k):
+        if k is not None and k[0] == "call" and k[1] == ("ext", "operator.itemgetter") and len(k[2]) == 1 and k[2][0][0] == "const" and k[2][0][1] in (0, 1):
+            return k[2][0][1]
+        return None
+    i = sel(K)
+    if X is None or i is None or L.conds:
+        return False
+    srt = X[0] == "call" and X[1] == ("builtin", "sorted") and len(X[2]) == 1
+    Z = X[2][0] if srt else X
+    if Z[0] == "call" and Z[1] in (("builtin", "list"), ("builtin", "tuple")) and len(Z[2]) == 1:
+        Z = Z[2][0]
+    if not (Z[0] == "call" and Z[1] == ("builtin", "zip") and len(Z[2]) == 2 and not Z[3]):
+        if not srt and any(x[0] == "call" and x[1] in (("ext", "numpy.argsort"), ("ext", "numpy.unique")) for x in walk(X)):
+            return False  # (an order that is not the stable order of the input: reported by the caller)
+        return False
+    a, b = Z[2]
+    zl = unwrap_labels(("call", Z[1], (b, a), ()))[2][1] if i == 0 else unwrap_labels(Z)[2][1]
+    other = b if i == 0 else a
+    if zl != labels or other != ev:
+        return False
+    if not srt:
+        ctx.bad("R13.3", self.file, "group_sound_events", f"for ... in groupby({show(Z)[:50]})",
+                "groupby makes one group per RUN of equal labels: over the pairs in input order (not sorted by label) a component whose members "
+                "are not adjacent in the input is split into several sequences -- events that are linked end up in different sequences",
+                getattr(L.node, "lineno", s.node.lineno), witness={"similar": "0~2 only, three events", "observed": "[[0], [1], [2]]", "required": "[[0, 2], [1]]"})
+        return True
+    sk = callkw(X)
+    if sel(sk.get("key")) != i or sk.get("reverse", ("const", False)) != ("const", False):
+        ctx.undec("R13.3", site, f"the pairs are sorted by something other than their label: {show(X)[:70]}")
+        return True
+    SEQ = ("global", "soundevent.data.sequences:Sequence", "class")
+    grp = ("sub", ("elem", L.id), ("const", 1))
+    ext = [c for c in s.calls if c.term[1][0] == "attr" and c.term[1][2] == "extend" and L.id in c.loops and c.term[1][1][0] == "attr"
+           and c.term[1][1][2] == "sound_events" and c.term[1][1][1][0] == "call" and c.term[1][1][1][1] == SEQ]
+    good = False
+    if len(ext) == 1 and len(ext[0].term[2]) == 1 and all(c[0] == "inloop" for c in conjuncts(ext[0].live)):
+        g = ext[0].term[2][0]
+        if g[0] == "comp" and len(g[3]) == 1 and g[3][0][1] == grp and not g[3][0][2] and g[2] == ("sub", ("elem", g[3][0][0]), ("const", 1 - i)):
+            good = True
+    rets = s.returns
+    ret_ok = len(rets) == 1 and rets[0].term[0] == "comp" and rets[0].term[1] == "list" and len(rets[0].term[3]) == 1 and rets[0].term[3][0][0] == L.id \
+        and rets[0].term[2][0] == "call" and rets[0].term[2][1] == SEQ and not rets[0].term[3][0][2]
+    if good and ret_ok:
+        ctx.ok("R13.3", site, "pairs sorted by label (stable), one Sequence per run of equal labels holding the run's events")
+        ctx.ok("R13.3", site, "returns the sequences in label order (= order of first appearance)")
+    else:
+        ctx.undec("R13.3", site, "the groups of the label-sorted pairs are not turned into sequences in a form the rule reads")
+    return True
+
+
+C13.groupby_form = _groupby_form
 
 
 def run(ctx: Ctx):
